@@ -18,7 +18,10 @@ GAPS = [' ', '  ', '\n', '\r\n', '\t', ' \n\n   ', ' /* a + b; x++; require(a &&
         ' /* 注释：乘法 a * 2，地址 address(0) */ ', '\n// コメント: keccak256(x) ≥ ≤ é€\n', ' /** doc * 4 / 2 */ ']
 
 
-def relayout(text, rng):
+SAFE_PUNCT = '.(),;[]{}'
+
+
+def relayout(text, rng, p_gap=0.35):
     """token-preserving re-layout: every white-space run outside string literals and pragma values is replaced by a random gap;
     -> (new text, map old byte offset -> new byte offset for non-space bytes)"""
     out = []
@@ -59,6 +62,14 @@ def relayout(text, rng):
             continue
         if ch in '"\'':
             in_str = ch
+        # a gap where the printed text has none: between a name and the punctuation next to it (`t.transfer(` -> `t . transfer (`).
+        # Never next to a digit (number literals contain dots) and never inside multi-character operators (not in the safe set)
+        prev = text[i - 1] if i else ' '
+        if ((ch in SAFE_PUNCT and (prev.isalpha() or prev in '_$' or prev in SAFE_PUNCT)) or ((ch.isalpha() or ch in '_$') and prev in SAFE_PUNCT)) \
+                and prev not in ' \t\r\n' and rng.random() < p_gap:
+            gap = rng.choice(GAPS)
+            out.append(gap)
+            new_b += len(gap.encode())
         out.append(ch); mapping[old_b] = new_b
         w = len(ch.encode()); old_b += w; new_b += w
         i += 1
@@ -163,12 +174,16 @@ def job(chk, idxs):
         names = {v.decl().name() for v in b.loc_vars}
         conc = fam.concrete_file(su, {}, z3.Solver().model() if False else _empty_model())
         text, starts = sol.print_source(conc)
-        new_text, mp = relayout(text, rng)
-        p_old, p_new = chk.native.file(text), chk.native.file(new_text)
-        nat = chk.native.run([['debugtree', p_old], ['debugtree', p_new]])
-        same_tree = nat[0][0] == 'OK' and nat[1][0] == 'OK' and sol.strip_locs(unhex(nat[0][1])) == sol.strip_locs(unhex(nat[1][1]))
-        if not same_tree:
-            chk.extra_lists.setdefault('relayout_not_token_preserving', []).append(label)
+        layouts = []
+        for variant, p_gap in (('random gaps', 0.35), ('a gap at every token boundary', 1.0)):
+            new_text, mp = relayout(text, rng, p_gap)
+            p_old, p_new = chk.native.file(text), chk.native.file(new_text)
+            nat = chk.native.run([['debugtree', p_old], ['debugtree', p_new]])
+            same_tree = nat[0][0] == 'OK' and nat[1][0] == 'OK' and sol.strip_locs(unhex(nat[0][1])) == sol.strip_locs(unhex(nat[1][1]))
+            if not same_tree:
+                chk.extra_lists.setdefault('relayout_not_token_preserving', []).append('%s (%s)' % (label, variant))
+            else:
+                layouts.append((variant, new_text, mp, p_old, p_new))
         for d in dets:
             fn = e.func(oracle.MIR_NAME[d])
             try:
@@ -193,7 +208,7 @@ def job(chk, idxs):
             if dep is None:
                 chk.ok()
             # the real code, both layouts: the same tokens must be flagged and the lines must move with them
-            if same_tree:
+            for variant, new_text, mp, p_old, p_new in layouts:
                 rr = chk.native.run([['detect', d, p_old], ['detect', d, p_new], ['analyze', oracle.CATEGORY[d], d, p_new]])
                 chk.validated += 1
                 if rr[0][0] == 'OK' and rr[1][0] == 'OK':
@@ -213,7 +228,7 @@ def job(chk, idxs):
                 elif rr[0][0] != rr[1][0]:
                     chk.violation('%s:relayout:panic-in-one-layout' % d, '%s: %r vs %r' % (d, rr[0][:2], rr[1][:2]), {'source': text, 'relayout': new_text})
         if i % 25 == 0:
-            chk.sample({'file': label, 'relayout (first 300 chars)': new_text[:300]})
+            chk.sample({'file': label, 'relayout (first 300 chars)': layouts[-1][1][:300] if layouts else None})
 
 
 def _empty_model():
@@ -231,7 +246,7 @@ def body(chk):
         idx = sorted(set(idx[:70]) | set(core))
     chk.bounds = {'files': '%d of %d family files (C05-C09, C15, C19 families) x 30 detectors' % (len(idx), len(files)),
                   'symbolic': 'all byte offsets free; string literal contents unobservable except their length',
-                  're-layouts': 'one seeded token-preserving re-layout per file (gaps: spaces, tabs, LF, CRLF, blank lines, line / block / doc comments with code-like and multi-byte text)',
+                  're-layouts': 'two seeded token-preserving re-layouts per file: random gaps in white space and at 35 % of the boundaries between names and punctuation, and a gap at EVERY such boundary (gaps: spaces, tabs, LF, CRLF, blank lines, line / block / doc comments with code-like and multi-byte text)',
                   'outside': 'the parser (token-preserving re-layout parses to the same tree: checked on every file through the real parser, not proved); comments inside pragma values'}
     chk.assumptions = ['parser contract: token-preserving re-layout yields the same tree up to Locs (validated per file with the real parser)', 'as C05']
     chk.parallel(job, [idx[k:k + 5] for k in range(0, len(idx), 5)])
